@@ -1,11 +1,19 @@
 // Entry point of the harness sources; compiled as `chumsky::input::verif` via the cfg hook.
 // Every file is pulled in with include! so that all sources stay under /verif.
 
+// Obligations. Under Kani a failed `kani::assert` is assumed to hold afterwards, which would let the first
+// failing obligation of a harness hide every later one (possibly of another property). Each obligation is
+// therefore guarded by its own fresh non-deterministic choice: where the choice is `false` nothing is assumed
+// and the run goes on, so every obligation is decided on its own. Natively a failed obligation is recorded
+// and the run goes on as well.
 #[cfg(kani)]
 macro_rules! vassert {
-    ($c:expr, $m:expr) => {
-        kani::assert($c, $m)
-    };
+    ($c:expr, $m:expr) => {{
+        let vassert_cond: bool = $c;
+        if kani::any::<bool>() {
+            kani::assert(vassert_cond, $m);
+        }
+    }};
 }
 #[cfg(not(kani))]
 macro_rules! vassert {
@@ -14,6 +22,23 @@ macro_rules! vassert {
             crate::input::verif::native::fail($m)
         }
     };
+}
+/// One condition that is an obligation of two properties.
+macro_rules! vassert2 {
+    ($c:expr, $m1:expr, $m2:expr) => {{
+        let vassert2_cond: bool = $c;
+        vassert!(vassert2_cond, $m1);
+        vassert!(vassert2_cond, $m2);
+    }};
+}
+/// An obligation that is a recorded finding on the pinned tree (known_findings.json): it is checked, and the
+/// rest of the contract is then checked for the behaviours where it holds.
+macro_rules! vassert_finding {
+    ($c:expr, $m:expr) => {{
+        let vassert_f_cond: bool = $c;
+        vassert!(vassert_f_cond, $m);
+        crate::input::verif::fw::ch::assume(vassert_f_cond);
+    }};
 }
 #[cfg(kani)]
 macro_rules! vcover {
